@@ -41,10 +41,29 @@ fn names(variant: usize) -> Names {
 const FA: &str = "did:iota:0xaaaaaaaaaaaaaaaaaaaaaaaaaaaaaaaaaaaaaaaaaaaaaaaaaaaaaaaaaaaaaaaa";
 const FB: &str = "did:example:foreign-b";
 
+thread_local! {
+  /// the realisation of the foreign IOTA DID "fa" for the case being run
+  static FA_NOW: std::cell::RefCell<String> = std::cell::RefCell::new(FA.to_string());
+}
+fn fa_now() -> String {
+  FA_NOW.with(|f| f.borrow().clone())
+}
+
+/// "fa" is a foreign IOTA DID: an unrelated tag, or -- still a DIFFERENT DID -- the tag of the document itself or of
+/// the unpack target on another network
+fn choose_fa(n: &Names, variant: usize) {
+  let v = match (variant / 6) % 3 {
+    0 => FA.to_string(),
+    1 => format!("did:iota:tst:{}", n.self_did.tag_str()),
+    _ => format!("did:iota:tst:{}", n.target.tag_str()),
+  };
+  FA_NOW.with(|f| *f.borrow_mut() = v);
+}
+
 fn did_of(tag: &str, own: &IotaDID) -> CoreDID {
   match tag {
     "self" | "t" => CoreDID::from(own.clone()),
-    "fa" => CoreDID::parse(FA).unwrap(),
+    "fa" => CoreDID::parse(fa_now()).unwrap(),
     "fb" => CoreDID::parse(FB).unwrap(),
     o => tool_error(&format!("bad DID tag {o}")),
   }
@@ -112,7 +131,7 @@ fn build(d: &Value, own: &IotaDID) -> Result<IotaDocument, String> {
     doc.also_known_as_mut().append(Url::parse("https://myself.example.org/").unwrap());
   }
   if b(&d["custom"]) {
-    doc.properties_mut_unchecked().insert("customProperty".into(), json!({"mentions": FA, "n": 1}));
+    doc.properties_mut_unchecked().insert("customProperty".into(), json!({"mentions": fa_now(), "n": 1}));
   }
   if refs.iter().any(|r| r == "fb") {
     // a reference to a method of another document can only come from deserialisation
@@ -158,6 +177,7 @@ fn mutate(frame: &str, bytes: &[u8]) -> Vec<u8> {
 fn run(case: &Value, variant: usize) -> Vec<(String, Value, Value)> {
   let mut diffs = Vec::new();
   let n = names(variant);
+  choose_fa(&n, variant);
   let original = match build(&case["doc"], &n.self_did) {
     Ok(d) => d,
     Err(e) => {
